@@ -88,6 +88,59 @@ def handleC19 (fields : List String) : Verdict :=
               return { modelOk := false, modelOut := toString (repr ans) }
         return { modelOk := true, nontrivial := ref.any (fun m => m != 0 && m != 2 ^ (2 ^ bits) - 1) }
     | _, _, _ => Verdict.badLine "unreadable seq line"
+  | ["wide", bits, nsets, cands, ops, obs] =>
+    -- sets too wide to enumerate: membership of a list of candidates (every element of the history, reduced to the
+    -- width, and elements that never occur); the reference is exact on them because every operation is pointwise
+    match bits.toNat?, nsets.toNat?, parseNats cands, ((ops.splitOn ";").filter (· ≠ "")).mapM parseSetOp with
+    | some bits, some nsets, some cands, some ops =>
+      let obsL := (obs.splitOn ";").filter (· ≠ "")
+      let red := fun (e : Nat) => e % 2 ^ bits
+      let showV := fun (v : List Bool) => String.ofList (v.map (fun b => if b then '1' else '0'))
+      let refStepC := fun (r : List (List Bool)) (op : SetOp) => (match op with
+        | .insert i e => (r.set i ((cands.zip (r.getD i [])).map (fun (c, b) => b || red c == red e)), none)
+        | .union i j => (r.set i (((r.getD i []).zip (r.getD j [])).map (fun (a, b) => a || b)), none)
+        | .intersect i j => (r.set i (((r.getD i []).zip (r.getD j [])).map (fun (a, b) => a && b)), none)
+        | .complement i j => (r.set i (((r.getD i []).zip (r.getD j [])).map (fun (a, b) => a && !b)), none)
+        | .empty i => (r.set i (cands.map (fun _ => false)), none)
+        | .universe i => (r.set i (cands.map (fun _ => true)), none)
+        | .contains i e => (r, ((cands.zip (r.getD i [])).find? (fun (c, _) => red c == red e)).map (·.2))
+        | .newSet => (r ++ [cands.map (fun _ => false)], none)
+        | .fromElement e => (r ++ [cands.map (fun c => red c == red e)], none)
+        | .clone i => (r ++ [r.getD i []], none)
+        | .equal i j => (r, some (r.getD i [] == r.getD j [])) : List (List Bool) × Option Bool)
+      Id.run do
+        let mut st : State := { bits, sets := List.replicate nsets (BDD.mkConst false) }
+        let mut ref : List (List Bool) := List.replicate nsets (cands.map (fun _ => false))
+        let mut idx := 0
+        for (op, ob) in ops.zip obsL do
+          idx := idx + 1
+          if ob == "PANIC" then
+            return { modelOk := false, modelOut := "ok", oracle := some s!"step {idx} ({repr op}): the operation panicked" }
+          match step st op with
+          | none => return Verdict.badLine s!"step {idx}: bad index"
+          | some (st', ans) =>
+            st := st'
+            let (ref', rans) := refStepC ref op
+            ref := ref'
+            let parts := (ob.splitOn ",")
+            let vecs := parts.take st.sets.length
+            let realAns := (parts.drop st.sets.length).head?
+            let mVecs := st.sets.map (fun s => showV (cands.map (memB s)))
+            if vecs != ref.map showV then
+              return { modelOk := vecs == mVecs, modelOut := toString mVecs,
+                       oracle := some s!"step {idx} ({repr op}), {bits}-bit sets, elements {cands}: membership is {vecs} but the reference sets say {ref.map showV}" }
+            match rans, realAns with
+            | some ra, some a =>
+              if (a == "1") != ra then
+                return { modelOk := ans == some (a == "1"), modelOut := toString (repr ans),
+                         oracle := some s!"step {idx} ({repr op}): the query answered {a} but the reference sets say {ra}" }
+            | _, _ => pure ()
+            if vecs != mVecs then
+              return { modelOk := false, modelOut := toString mVecs }
+            if ans.isSome && ans != realAns.map (· == "1") then
+              return { modelOk := false, modelOut := toString (repr ans) }
+        return { modelOk := true, nontrivial := ref.any (fun v => v.any id && !v.all id) }
+    | _, _, _, _ => Verdict.badLine "unreadable wide line"
   | _ => Verdict.badLine "unknown C19 line"
 
 end Driver
